@@ -9,6 +9,7 @@ import (
 	"encoding/json"
 	"fmt"
 	"os"
+	"path/filepath"
 	"regexp"
 	"runtime/debug"
 	"sort"
@@ -75,6 +76,34 @@ var entries = map[string]entry{
 	"compile": {"ParseSourceBytes", func(p *syntax.Parser, src []byte) (bool, error) {
 		_, _, a, err := p.ParseSourceBytes(src, "in.mro", nil, false)
 		return a != nil, err
+	}},
+	// several files: src is {"files": {name: text}, "top": name}; the top file is compiled
+	// with its directory on the include path, then formatted
+	"graph": {"ParseSourceBytes(include graph)", func(p *syntax.Parser, src []byte) (bool, error) {
+		var g struct {
+			Files map[string]string `json:"files"`
+			Top   string            `json:"top"`
+		}
+		if err := json.Unmarshal(src, &g); err != nil {
+			panic("bad graph case: " + err.Error())
+		}
+		dir, err := os.MkdirTemp("", "graph")
+		if err != nil {
+			panic(err)
+		}
+		defer os.RemoveAll(dir)
+		for n, t := range g.Files {
+			os.MkdirAll(filepath.Dir(filepath.Join(dir, n)), 0755)
+			os.WriteFile(filepath.Join(dir, n), []byte(t), 0644)
+		}
+		top := filepath.Join(dir, g.Top)
+		_, _, a, err := p.ParseSourceBytes([]byte(g.Files[g.Top]), top, []string{dir}, false)
+		if err != nil {
+			return a != nil, err
+		}
+		var q syntax.Parser
+		out, err := q.FormatSrcBytes([]byte(g.Files[g.Top]), top, false, []string{dir})
+		return a != nil && out != "", err
 	}},
 	"format": {"FormatSrcBytes", func(p *syntax.Parser, src []byte) (bool, error) {
 		s, err := p.FormatSrcBytes(src, "in.mro", false, nil)
